@@ -7,6 +7,12 @@ NOT_DECIDED = {
     "C11": ["independence from process schedules: reduced to the assumed contract of multiprocessing.Pool.map",
             "max_returns = m clause: rapidfuzz extract(limit=) and sorted()[:limit] are not modelled (max_returns is None in the verified domain)"],
     "C14": ["nearest_neighbor_tcrdist: pwseqdist is not installed; the TCRdist part is outside the functions under contract"],
+    "C18": ["what tidytcells' standardisers return for a cell (third-party; uninterpreted functions of the cell and the options passed): the contract "
+            "fixes which standardiser is applied to which column with which options, cell by cell",
+            "pandas.merge's join semantics (third-party; an opaque deterministic function bound like its real signature): 'returns the join' is "
+            "decided as 'applies pandas.merge left to right with these key / how / suffix arguments'",
+            "tables are enumerated over three column layouts (all nine standard columns + an extra one; misnamed columns with a col_mapper; a "
+            "partial table) with any number of rows; cells are strings with '' standing for a missing cell"],
     "C17": ["that every individual item is EQUALLY LIKELY to be kept (subsample / downsample): a statement about the distribution of numpy's "
             "generator; numpy.random.choice / DataFrame.sample are assumed to draw uniformly, no contract decides it",
             "powerlaw_mle_alpha 'exact': that scipy's bounded search returns the GLOBAL minimiser is an assumed contract of "
